@@ -8,7 +8,9 @@ package main
 // assertions on the real code.
 
 import (
+	"encoding/base64"
 	"encoding/json"
+	"net/url"
 	"fmt"
 	"os"
 	"strings"
@@ -112,7 +114,40 @@ func verifAssert(c bool, id string) {
 
 func verifReach(id string) { verifReached = append(verifReached, id) }
 
-func verifLeaks(hay, secret string) bool { return strings.Contains(hay, secret) }
+// verifLeaks (native oracle): the secret occurs in hay verbatim, URL-encoded, or inside
+// a base64 token of hay. (Symbolically: some segment of hay depends on the secret outside
+// a cryptographic hash / cipher and can contain it.)
+func verifLeaks(hay, secret string) bool {
+	if secret == "" {
+		return false
+	}
+	if strings.Contains(hay, secret) || strings.Contains(hay, url.QueryEscape(secret)) || strings.Contains(hay, url.PathEscape(secret)) {
+		return true
+	}
+	isB64 := func(c byte) bool {
+		return (c >= 'A' && c <= 'Z') || (c >= 'a' && c <= 'z') || (c >= '0' && c <= '9') || c == '+' || c == '/' || c == '=' || c == '-' || c == '_'
+	}
+	for i := 0; i < len(hay); {
+		if !isB64(hay[i]) {
+			i++
+			continue
+		}
+		j := i
+		for j < len(hay) && isB64(hay[j]) {
+			j++
+		}
+		if j-i >= 8 {
+			tok := hay[i:j]
+			for _, enc := range []*base64.Encoding{base64.StdEncoding, base64.URLEncoding, base64.RawStdEncoding, base64.RawURLEncoding} {
+				if d, err := enc.DecodeString(tok); err == nil && strings.Contains(string(d), secret) {
+					return true
+				}
+			}
+		}
+		i = j
+	}
+	return false
+}
 
 func verifNote(s string) {}
 
